@@ -100,3 +100,9 @@ CLAIMS["C18"] = dict(
     text="Every compliant rendering (all entry kinds incl. six config flavours with help/continuation/comment variants, named/unnamed choices, all source spellings, macros; under mainmenu and as sourced file) must be reported OK, left byte-identical by replace mode with no *.new left. Every single-site, every two-site (distance-bounded) and four global manglings from {indent +-1..4, indent 0, tab per unit, leading tab, trailing blanks/tab, tab in string} that leave parser 1's reading unchanged must reach within 5 replace passes a file that is reported OK, on which a further (really executed) pass is the identity, and which parser 1 and parser 2 read like the mangled input. Same for sdkconfig.rename files.",
     note="Manglings that change what parser 1 reads (misleading formatting, exempted by the documentation) and inputs on which the two parsers already disagree (C04) are counted as skipped; help texts are compared modulo leading/trailing blanks of their lines.",
 )
+CLAIMS["C08"] = dict(
+    category="model_checking",
+    technique="exhaustive enumeration of (old tree, single-change new tree) pairs x every file written in a configuration reachable by <=2 operations x both policies x every edit history of <=2/3 operations, on the real loader; differential against the same file with marked entries removed on a source-level patched tree",
+    text="For three base trees and every single change of the menu (default literal / condition, range, dependency, option added / removed, prompt removed / conditioned, promptless default, set default source, choice default / members, upstream default; and no change), every sdkconfig the tool writes under the old tree in a configuration reachable by <=2 operations is loaded into the new tree under policy sdkconfig and kconfig and followed by every edit history of <=2 (quick) / 3 (thorough) operations: values, visibilities and the re-written file must equal those obtained from the file without its default-marked entries on the new tree (policy kconfig / unchanged tree) or on the new tree with the stored values written as the options' own defaults (policy sdkconfig); unmarked entries must be user values after load; the mismatch records must name exactly the visible options / choices whose stored default differs.",
+    note="T_new' is computed by patching one option at a time in definition order (trees define options after their dependencies); retyping an option is outside the statement's menu of changes.",
+)
